@@ -6,23 +6,25 @@ helpers / closures / Option combinators expanded):
   R1 sibling filters  an element of self.artifacts reaches the selection step exactly when
                       artifact.os == os && artifact.arch == arch && satisfies_version(&artifact.version) &&
                       satisfies_metadata(&artifact.metadata), in resolve and in partial_resolve alike
-  R2 selection        resolve = max_by_key(.version) or the equivalent accumulation (first match seeds, a later element
-                      replaces unless the current one is strictly greater); partial_resolve accumulates with the table
+  R2 selection        resolve = max_by_key(.version), max_by(comparator) read as std's reduce table, or the equivalent
+                      accumulation (first match seeds, a later element replaces unless the current one is strictly
+                      greater); partial_resolve accumulates with the table
                       None -> item, Some(acc) & cmp(item, acc) in {Greater, Equal} -> item, otherwise -> acc,
                       both keys being `.version`; the accumulator starts from None and the whole sequence is visited,
                       so None is returned only for an empty filtered sequence
-  R3 checksum acceptor Ok(Checksum{..}) only under name_compatible(name) && length_compatible(decoded length);
-                      name / value come from split_once(':') with the hex-decode error propagated
-  R4 codec pair       Serialize = "{name}:{hex::encode(value)}", Deserialize = String -> parse;
+  R3 checksum acceptor decided on the outcomes of from_str (C18_helpers.ResultPaths: `?`, combinators + closures, match and
+                      private helpers expand to the same decision paths): every Ok(Checksum{..}) outcome lies under
+                      name_compatible(name) && length_compatible(decoded length) with name / value from split_once(':');
+                      every outcome on which hex::decode failed is Err(InvalidValue(that error))
+  R4 codec pair       Serialize = name ++ ":" ++ hex::encode(value) (format! or String building, text normal form),
+                      Deserialize = String -> parse;
                       Display for Inventory = toml::to_string, FromStr = toml::from_str
   R5 digest impls     Sha256 <-> "sha256" / output_size(); Sha512 <-> "sha512" / output_size()
 Not decided: maximality for unlawful PartialOrd impls; TOML round-trip equality (toml, hex crates).
 """
 from . import C18_helpers as H
-from .lib.guards import conditions_gated
 from .lib.paths import strip
-from .lib.tables import arm_defs
-from .lib.value import vstr, walk
+from .lib.value import canon, vstr, walk
 
 INV = r'^libherokubuildpack::inventory::Inventory::<V, D, M>::'
 CK = 'libherokubuildpack::inventory::checksum::'
@@ -30,14 +32,6 @@ CK = 'libherokubuildpack::inventory::checksum::'
 
 def _none_opt(v):
     return v[0] == 'agg' and v[2] == 'None'
-
-
-def carried_values(prog, sl, v, depth=0):
-    """v and everything a closure inside v returns (closures handed to and_then / map run on the same result)"""
-    for x in walk(v):
-        yield x
-        if x[0] == 'closure' and depth < 4 and x[1] in prog.fns:
-            yield from carried_values(prog, sl, sl.inline_deep(sl.local(prog.fns[x[1]], 0)), depth + 1)
 
 
 def run(ctx, rep):
@@ -118,37 +112,39 @@ def run(ctx, rep):
     # ---- R3 ------------------------------------------------------------------------------------------
     fs = prog.fn('<%sChecksum<D> as std::str::FromStr>::from_str' % CK)
     rep.analysed(fs)
-    oks = [(bi, v, c) for bi, v, c in arm_defs(fs, 0, sl) if strip(v)[0] == 'agg' and strip(v)[2] == 'Ok']
+    # from_str as its outcomes (C18_helpers.ResultPaths): every way to return Ok / Err with the decisions taken on the
+    # way, `?`, and_then / map / map_err / ok_or closures, match / let-else and private helpers (tail-called, under
+    # `?`, handed to a combinator) all expanded into the same primitive decisions in from_str's own terms
+    try:
+        rp, giveup = H.result_paths(prog, sl, fs), ''
+    except H.Giveup as e:
+        rp, giveup = [], '; outcomes of from_str not understood: %s' % e
+    oks = [(atoms, p) for atoms, k, p in rp if k == 'ok']
     good = len(oks) >= 1
-    val_v = ('unknown',)
-    for bi, v, conds in oks:
-        ck = strip(sl.inline_deep(dict(strip(v)[3])['0']))
+    vals = []
+    for atoms, p in oks:
+        ck = strip(sl.inline_deep(p))
         fl = dict(ck[3]) if ck[0] == 'agg' else {}
         name_v, val_v = fl.get('name', ('unknown',)), fl.get('value', ('unknown',))
+        vals.append(val_v)
         split_ok = all(any(x[0] == 'call' and x[1] == 'core::str::<impl str>::split_once' and strip(x[2][1]) == ('const', ':') for x in walk(y)) for y in (name_v, val_v))
-        # the guards as written and with private boolean helpers looked through (Cond.views)
-        views = [(tv, oc) for cd in conditions_gated(prog, fs, bi, sl) if cd.kind == 'bool' for tv, oc in cd.views()]
-        nm = [tv for tv, oc in views if tv[0] == 'call' and tv[1].endswith('Digest::name_compatible') and oc is True]
-        ln = [tv for tv, oc in views if tv[0] == 'call' and tv[1].endswith('Digest::length_compatible') and oc is True]
+        # the decisions on the way to this Ok (private boolean helpers already looked through)
+        tests = [(a[1], a[2]) for a in atoms if a[0] == 'bool']
+        nm = [tv for tv, oc in tests if tv[0] == 'call' and tv[1].endswith('Digest::name_compatible') and oc is True]
+        ln = [tv for tv, oc in tests if tv[0] == 'call' and tv[1].endswith('Digest::length_compatible') and oc is True]
         ln_ok = any(strip(tv[2][0])[0] == 'call' and strip(tv[2][0])[1].endswith('::len') for tv in ln)
         good = good and split_ok and bool(nm) and ln_ok
-        rep.extra['checksum_guards'] = [repr(c)[:120] for c in conds if c.kind == 'bool']
+        rep.extra['checksum_guards'] = [H.atom_str(a) for a in atoms if a[0] == 'bool']
     rep.check(good, 'R3', 'acceptor', w(fs), 'Ok only under name_compatible(name) && length_compatible(value.len()), parts from split_once(\':\')',
-              'checksum accepted without both compatibility checks')
-    # the decode whose payload becomes `value` has its error wrapped in InvalidValue and handed to `?`: one of the
-    # propagated (residual) results of from_str carries map_err(hex::decode(..), InvalidValue) — directly, inside a
-    # closure run on the same result (and_then / map), or behind a private helper
-    rv = sl.inline_deep(sl.local(fs, 0))
-    dec_ok = False
-    for x in walk(rv):
-        if x[0] == 'residual':
-            for y in carried_values(prog, sl, x[1]):
-                if y[0] == 'call' and y[1] == 'std::result::Result::<T, E>::map_err' and len(y[2]) == 2 and \
-                        any(z[0] == 'call' and z[1] == 'hex::decode' for z in walk(y[2][0])) and \
-                        any(z[0] == 'fnitem' and z[1].endswith('InvalidValue') for z in walk(y[2][1])):
-                    dec_ok = True
-    dec_ok = dec_ok and any(z[0] == 'call' and z[1] == 'hex::decode' for z in walk(val_v))
-    rep.check(dec_ok, 'R3', 'hex-error', w(fs), 'hex decode error mapped to InvalidValue and propagated', 'hex decode error is not propagated as InvalidValue')
+              'checksum accepted without both compatibility checks' + giveup)
+    # the decode whose payload becomes `value` has its error wrapped in InvalidValue and propagated: every outcome of
+    # from_str on which hex::decode(..) failed is Err(InvalidValue(<that decode's error>)), and the failure is looked at
+    # at all (there is such an outcome)
+    inv = lambda y: (y[0] == 'agg' and y[2] == 'InvalidValue') or (y[0] == 'call' and y[1].endswith('::InvalidValue'))
+    failed = [(k, p, a[1]) for atoms, k, p in rp for a in atoms if a[0] == 'res' and a[2] == 'err' and a[1][0] == 'call' and a[1][1] == 'hex::decode']
+    dec_ok = bool(failed) and all(k == 'err' and p is not None and inv(strip(p)) and any(y[0] == 'unwrap_err' and canon(y[1]) == s for y in walk(p)) for k, p, s in failed)
+    dec_ok = dec_ok and bool(vals) and all(any(z[0] == 'call' and z[1] == 'hex::decode' for z in walk(v)) for v in vals)
+    rep.check(dec_ok, 'R3', 'hex-error', w(fs), 'hex decode error mapped to InvalidValue and propagated', 'hex decode error is not propagated as InvalidValue' + giveup)
     # ---- R4 ------------------------------------------------------------------------------------------
     se = prog.find(r'^<%sChecksum<D> as .*Serialize>::serialize$' % CK.replace('::', '::'))
     ok = len(se) == 1
@@ -157,9 +153,14 @@ def run(ctx, rep):
         c = [x for x in se[0].calls if x.decl and x.decl.endswith('Serializer::serialize_str')]
         ok = len(c) == 1
         if ok:
-            fm = next((x for x in walk(sl.operand(se[0], c[0].args[1])) if x[0] == 'fmt'), None)
-            ok = fm is not None and len(fm[1]) == 3 and fm[1][1] == ':' and strip(fm[1][0])[0] == 'field' and strip(fm[1][0])[2] == 'name' and \
-                strip(fm[1][2])[0] == 'call' and strip(fm[1][2])[1] == 'hex::encode' and strip(strip(fm[1][2])[2][0])[2] == 'value'
+            # the text handed to serialize_str, as its pieces: format!(..), String building with push_str / push and a
+            # private rendering helper (inline_deep) have the same normal form [self.name, ':', hex::encode(self.value)]
+            tv = sl.inline_deep(sl.operand(se[0], c[0].args[1]))
+            fm = next((x for x in walk(tv) if x[0] in ('fmt', 'concat')), None)
+            ps = H.text_parts(sl, fm) if fm is not None else []
+            own = lambda x, name: strip(x)[0] == 'field' and strip(x)[2] == name and strip(strip(x)[1])[0] == 'param' and strip(strip(x)[1])[1] == se[0].path
+            ok = len(ps) == 3 and ps[1] == ':' and not isinstance(ps[0], str) and not isinstance(ps[2], str) and own(ps[0], 'name') and \
+                strip(ps[2])[0] == 'call' and strip(ps[2])[1] == 'hex::encode' and len(strip(ps[2])[2]) == 1 and own(strip(ps[2])[2][0], 'value')
     rep.check(ok, 'R4', 'checksum/serialize', w(se[0]) if se else '-', 'serialises as "{name}:{hex(value)}"', 'Checksum serialisation format changed')
     de = prog.find(r"^<%sChecksum<D> as .*Deserialize<'de>>::deserialize$" % CK)
     ok = len(de) == 1 and any(any(c.full and 'parse::<libherokubuildpack::inventory::checksum::Checksum<D>>' in c.full for c in g.calls) for g in [de[0]] + prog.closures_of(de[0]))
